@@ -143,6 +143,49 @@ def order_rules(rep, prog):
     rep.check("ORDER.topological", len(topo) == 1, fwhere(f), "edges are ordered along topological_ordering(G)", "order_edges does not use the topological order of G")
 
 
+def ordering_typing(rep, prog, qnames):
+    """A topological ordering is a map position -> node.  Indexing it with node labels (indices that come out
+    of np.where on an adjacency-shaped matrix, or out of pa / ch / neighbors ...) confuses the permutation with
+    its inverse; legitimate uses iterate it, reverse it, hand it to sort(L, order) or index it by positions."""
+    NODE_SOURCES = {U + n for n in ("pa", "ch", "neighbors", "adj", "na", "ancestors", "descendants")}
+    for q in qnames:
+        f = need(prog, q)
+        S = Sym(prog)
+        run_function(S, f)
+        topo = {c.result for c in S.select("call", qname=q) if c.target == U + "topological_ordering"}
+        if not topo:
+            continue
+
+        def is_ordering(t):
+            while isinstance(t, tuple) and t and ((t[0] == "ext" and t[1] in ("numpy.array", "numpy.asarray", "list", "tuple", "reversed") and t[2]) or
+                                                  (t[0] == "sub" and t[2][0] == "slice")):
+                t = t[2][0] if t[0] == "ext" else t[1]
+            return t in topo
+        bad = []
+        terms = []
+        for fact in S.facts:
+            if fact.qname != q:
+                continue
+            terms += [getattr(fact, "value", None), getattr(fact, "idx", None)] + list(getattr(fact, "args", []) or [])
+        for li in S.loopinfo.values():
+            if li["func"] == q:
+                terms += list(li["next"].values())
+        for t in terms:
+            if t is None:
+                continue
+            for x in walk(t):
+                if isinstance(x, tuple) and len(x) == 3 and x[0] == "sub" and is_ordering(x[1]) and x[2][0] != "slice":
+                    idx = x[2]
+                    nodeish = any(isinstance(y, tuple) and ((y[0] == "ext" and y[1] in ("numpy.where", "numpy.nonzero", "numpy.argwhere")) or
+                                                            (y[0] == "call" and y[1] in NODE_SOURCES)) for y in walk(idx))
+                    if nodeish:
+                        bad.append(x)
+        if bad:
+            rep.bad("INDEX.ordering", fwhere(f), "the topological ordering (position -> node) is indexed with node labels: %s - the permutation is used as if it were its inverse" % fmt(bad[0])[:120])
+        else:
+            rep.ok("INDEX.ordering", fwhere(f), "the ordering is only iterated / reversed / passed to sort(L, order) or indexed by positions")
+
+
 def extension_rules(rep, prog):
     q = U + "pdag_to_cpdag"
     f = need(prog, q)
@@ -196,6 +239,7 @@ def run(prog, rep, tier):
     assemble_rules(rep, prog, marker, written, fl)
     order_rules(rep, prog)
     extension_rules(rep, prog)
+    ordering_typing(rep, prog, [U + "order_edges"])
     dag_gate(rep, prog, U + "order_edges", "G", rule="GATE")
     rep.require_count("LABELS", 4)
     rep.require_count("PAT.entry", 2)
